@@ -233,6 +233,21 @@ def reads_only(target, allowed):
     return ("reads-only-" + "-".join(sorted(allowed)), not extra and not stores, f"self attributes used: {sorted(seen)}; written: {sorted(stores)}")
 
 
+def register_per_item(n, clause):
+    """A verified postcondition of the form `for all 0 <= j < n: clause(j)` is not asserted at the call site as a
+    quantified fact; it is kept here and instantiated at the indices in play by `pile_at` (DESIGN 3.7)."""
+    cur().ghost.setdefault("per_item", []).append((n, clause))
+
+
+def pile_at(*indices):
+    """Instantiate the registered per-item postconditions (of get_item_rows / get_rows_sizes calls made so far on
+    this path) at the given indices."""
+    st = cur()
+    for n, clause in list(st.ghost.get("per_item", [])):
+        for j in indices:
+            st.assume(implies(both(0 <= j, j < n), clause(j)))
+
+
 def psum_of(seq, k):
     """Sum of the first k elements of a list value (concrete or symbolic)."""
     return Q.to_sseq(seq).psum(k)
@@ -286,8 +301,8 @@ class pile_get_item_rows:
         yield "one-entry-per-item", Q.seq_len(rn) == n
         if len(a.size) == 1:
             ph_unfold(old, n - 1, a.size, a.focus)
-            # FAILS-ON-TREE: Pile([('pack', <fixed-only widget 9 cols x 4 rows>)]).get_item_rows((12,), False) -> [9]
-            # (flow branch takes w.pack((), focused)[0], the width, as the rows of a fixed-only packed child; DESIGN 7-b)
+            # (failed on the tree until fix 8cbf681: the flow branch took w.pack((), focused)[0], the width, as the rows of
+            #  a fixed-only packed child: Pile([('pack', BigText("123", Thin3x3Font())), Text('x')]).get_item_rows((12,), False) -> [9, 1])
             yield "every-item-gets-the-rows-it-is-rendered-with", forall(0, n, lambda j: entry_is(Q.seq_get(rn, j), pile_item_height(old, j, a.size, a.focus)))
             yield "sum-is-the-total-height", rn.psum(n) == PH(a.focus, n)
             return
@@ -297,6 +312,21 @@ class pile_get_item_rows:
         yield "entries-non-negative-own-rows-for-given-and-pack", forall(0, n, lambda j: _entry_ok(old, rn, j, maxcol, a.focus, True))
         yield "weighted-items-fill-the-rest-exactly", rn.psum(n) == fixed + imax(maxrow - fixed, 0)
         yield "had-a-weighted-item", WT(n) > 0
+
+    def ensures_callee(old, s, a, result):
+        """At call sites: the quantifier-free clauses; the per-item clause is instantiated on demand (`pile_at`)."""
+        n = n_items(old)
+        rn = result.seq if hasattr(result, "seq") else result
+        yield "one-entry-per-item", Q.seq_len(rn) == n
+        if len(a.size) == 1:
+            per_item = lambda j: entry_is(Q.seq_get(rn, j), pile_item_height(old, j, a.size, a.focus))  # noqa: E731
+            yield "sum-is-the-total-height", rn.psum(n) == PH(a.focus, n)
+        else:
+            per_item = lambda j: _entry_ok(old, rn, j, a.size[0], a.focus, True)  # noqa: E731
+            fixed = FIX(n)
+            yield "weighted-items-fill-the-rest-exactly", rn.psum(n) == fixed + imax(a.size[1] - fixed, 0)
+            yield "had-a-weighted-item", WT(n) > 0
+        register_per_item(n, per_item)
 
     def on_raise(old, s, a, exc):
         n = n_items(old)
